@@ -133,8 +133,13 @@ func c10Case(r *fw.Rand, index string) fw.Case {
 		case 0, 1, 2:
 			ops = append(ops, "w "+c10Batch(r, live))
 		case 3, 4:
-			ops = append(ops, "snap")
-			files++
+			if r.Intn(4) == 0 {
+				// a failed snapshot stays in the cache: deletes must reach it
+				ops = append(ops, "snapfail")
+			} else {
+				ops = append(ops, "snap")
+				files++
+			}
 		case 5:
 			if files >= 2 {
 				a := r.Intn(files - 1)
